@@ -93,6 +93,9 @@ type Fixture struct {
 	Ctn              container.Reader
 	CtnInv, AliasInv *invocation.Token
 	AliasCid         cid.Cid
+	// an argument object owned by the caller, returned by a hook to every check that asks (it lacks the
+	// invocation's keyed arguments: the policies only constrain optional selectors)
+	HookArgs *args.Args
 }
 
 func synthCid(label string) cid.Cid {
@@ -251,6 +254,13 @@ func NewFixture(v Variant) *Fixture {
 		return t
 	}
 	f.CtnInv, f.AliasInv = mkInv(real), mkInv(alias)
+	f.HookArgs = args.New()
+	if err := f.HookArgs.Add("l", []int{1, 2, 3}); err != nil {
+		panic(err)
+	}
+	if err := f.HookArgs.Add("region", "eu"); err != nil {
+		panic(err)
+	}
 	return f
 }
 
@@ -583,6 +593,14 @@ func Ops() []Op {
 				return v, nil
 			}))
 		}},
+		// a hook that hands out ONE argument object of the caller's for every check (a fixed set of arguments the
+		// executor substitutes): the check reads it; the object, like the token, is what it was afterwards
+		{"inv.ExecutionAllowedWithArgsHook(caller-owned-args)", func(f *Fixture, s Seam) string {
+			return errStr(f.Inv.ExecutionAllowedWithArgsHook(loader{f, s}, func(a args.ReadOnly) (*args.Args, error) {
+				point(s)
+				return f.HookArgs, nil
+			})) + "|" + f.HookArgs.String()
+		}},
 		{"inv.ExecutionAllowedWithArgsHook(violating)", func(f *Fixture, s Seam) string {
 			return errStr(f.Inv.ExecutionAllowedWithArgsHook(loader{f, s}, func(a args.ReadOnly) (*args.Args, error) {
 				point(s)
@@ -609,6 +627,8 @@ func DumpValue(v any) string {
 // fields included, slices in storage order, maps sorted by key.
 func Dump(f *Fixture) string {
 	var b strings.Builder
+	dumpValue(&b, reflect.ValueOf(f.HookArgs), 0)
+	b.WriteString("\n")
 	dumpValue(&b, reflect.ValueOf(f.Inv), 0)
 	for _, d := range f.Dlgs {
 		b.WriteString("\n")
